@@ -1,0 +1,47 @@
+//go:build verif
+
+package parser
+
+import (
+	"github.com/robertkrimen/otto/file"
+	"github.com/robertkrimen/otto/token"
+)
+
+// Verification hooks (build tag verif) for the lexer and the literal decoders.
+// They add code only and change no behaviour.
+
+// VerifTok is one token as the parser sees it after p.next().
+type VerifTok struct {
+	Tok     token.Token
+	Literal string
+	Idx     file.Idx
+	// NL is p.implicitSemicolon after the scan: a line terminator (or the end of
+	// input) precedes this token and the previous token could end a statement.
+	NL bool
+}
+
+// VerifScanAll runs the real scanner over src exactly as parser.next() does and
+// returns every token up to and including EOF, plus the number of errors the
+// scanner reported on the way.
+func VerifScanAll(src string) ([]VerifTok, int) {
+	p := newParser("", src, 1, nil)
+	var out []VerifTok
+	for i := 0; i <= len(src)+1; i++ {
+		p.next()
+		out = append(out, VerifTok{Tok: p.token, Literal: p.literal, Idx: p.idx, NL: p.implicitSemicolon})
+		if p.token == token.EOF {
+			break
+		}
+	}
+	return out, len(p.errors)
+}
+
+// VerifParseNumberLiteral exposes parseNumberLiteral.
+func VerifParseNumberLiteral(literal string) (interface{}, error) {
+	return parseNumberLiteral(literal)
+}
+
+// VerifParseStringLiteral exposes parseStringLiteral (argument: the text between the quotes).
+func VerifParseStringLiteral(literal string) (string, error) {
+	return parseStringLiteral(literal)
+}
